@@ -6,6 +6,8 @@ package main
 //
 //	reserve N | commit N | consume N | save N | discard I L | discardall | savedslot I L | reset
 //	read N | readbyte | readfrom N SEED ERR | unreadbyte | write HEX | writebyte HH | writestring HEX
+//	awriteto n:f,... | areadfrom N SEED   AsyncWriteTo / AsyncReadFrom over callees that complete inside the call (traced as
+//	                                      writeto / readfrom: same outcome)
 //	writeto n:f,n:f,... | prepareread N | claim RET SEED | claimfixed N SEED | shrinkby N | shrinkto N
 //
 // Integer arguments may be symbolic: SL RL WL (SaveLen/ReadLen/WriteLen), R (Reserved), L (Len), MAX, MIN,
@@ -89,6 +91,39 @@ func (w *scriptedWriter) Write(p []byte) (int, error) {
 	}
 	w.out = append(w.out, p[:k]...)
 	return k, nil
+}
+
+// asynchronous twins of the scripted callees: they complete inside the call
+type scriptedAsyncWriter struct{ w *scriptedWriter }
+
+func (a scriptedAsyncWriter) AsyncWrite(p []byte, cb sonic.AsyncCallback) {
+	n, err := a.w.Write(p)
+	cb(err, n)
+}
+
+func (a scriptedAsyncWriter) AsyncWriteAll(p []byte, cb sonic.AsyncCallback) {
+	done := 0
+	for done < len(p) {
+		n, err := a.w.Write(p[done:])
+		done += n
+		if err != nil {
+			cb(err, done)
+			return
+		}
+	}
+	cb(nil, done)
+}
+
+type scriptedAsyncReader struct{ r *scriptedReader }
+
+func (a scriptedAsyncReader) AsyncRead(p []byte, cb sonic.AsyncCallback) {
+	n, err := a.r.Read(p)
+	cb(err, n)
+}
+
+func (a scriptedAsyncReader) AsyncReadAll(p []byte, cb sonic.AsyncCallback) {
+	n, err := a.r.Read(p)
+	cb(err, n)
 }
 
 // ---- run ----------------------------------------------------------------------------------------
@@ -356,6 +391,42 @@ func bbPrepare(b *sonic.ByteBuffer, f []string) (string, func() string) {
 			k, err := b.WriteTo(sw)
 			return fmt.Sprintf("wt %d %s %s", k, hx(sw.out), errName(err))
 		}
+	case "awriteto":
+		// AsyncWriteTo over an asynchronous writer that completes inside the call and never fails (with a failing writer the
+		// asynchronous variant keeps what was delivered, by its documentation): same outcome as WriteTo, traced as such
+		resps := parseResps(f[1])
+		for i := range resps {
+			resps[i].fail = false
+		}
+		plan := make([]string, len(resps))
+		for i, r := range resps {
+			plan[i] = fmt.Sprintf("%d:0", r.n)
+		}
+		planText := "-"
+		if len(plan) > 0 {
+			planText = strings.Join(plan, ",")
+		}
+		return "writeto " + planText, func() string {
+			sw := &scriptedWriter{resps: resps}
+			k, calls := 0, 0
+			var cerr error
+			b.AsyncWriteTo(scriptedAsyncWriter{sw}, func(err error, n int) { k, cerr, calls = n, err, calls+1 })
+			if calls != 1 {
+				return fmt.Sprintf("wt %d %s callback-ran-%d-times", k, hx(sw.out), calls)
+			}
+			return fmt.Sprintf("wt %d %s %s", k, hx(sw.out), errName(cerr))
+		}
+	case "areadfrom":
+		n, seed := resolveNat(b, f[1]), resolveByte(f[2])
+		return fmt.Sprintf("readfrom %d %02x %s", n, seed, errName(nil)), func() string {
+			k, calls := 0, 0
+			var cerr error
+			b.AsyncReadFrom(scriptedAsyncReader{&scriptedReader{n: n, seed: seed}}, func(err error, m int) { k, cerr, calls = m, err, calls+1 })
+			if calls != 1 {
+				return fmt.Sprintf("nerr %d callback-ran-%d-times", k, calls)
+			}
+			return fmt.Sprintf("nerr %d %s", k, errName(cerr))
+		}
 	case "prepareread":
 		n := resolveInt(b, f[1])
 		return fmt.Sprintf("prepareread %d", n), func() string { return "err " + errName(b.PrepareRead(n)) }
@@ -543,8 +614,16 @@ func bbGenOp(r *rng, w *bufio.Writer) {
 		fmt.Fprintf(w, "! readbyte\n")
 	case 27, 28:
 		e := []string{"nil", "nil", "nil", "nil", "eof", "other"}[r.intn(6)]
+		if e == "nil" && r.intn(3) == 0 {
+			fmt.Fprintf(w, "! areadfrom %s %s\n", []string{"0", "1", "3", "7", "R", "R+1", "R-1", "R/2", "100", "5000"}[r.intn(10)], seed())
+			break
+		}
 		fmt.Fprintf(w, "! readfrom %s %s %s\n", []string{"0", "1", "3", "7", "R", "R+1", "R-1", "R/2", "100", "5000"}[r.intn(10)], seed(), e)
 	case 29, 30:
+		if r.intn(3) == 0 {
+			fmt.Fprintf(w, "! awriteto %s\n", bbResps(r))
+			break
+		}
 		fmt.Fprintf(w, "! writeto %s\n", bbResps(r))
 	case 31, 32:
 		fmt.Fprintf(w, "! prepareread %s\n", []string{"RL", "RL+1", "RL-1", "L", "RL+" + strconv.Itoa(1+r.intn(5)), "0", "-1", "MIN", "MAX", "MIN+1", "1", "3"}[r.intn(12)])
